@@ -66,10 +66,16 @@ func (w *Writer) Finished() bool {
 	return w.finished
 }
 
+// maxObjectsPrealloc bounds the slice capacity reserved from a pack
+// header's object count before any object has been read.
+const maxObjectsPrealloc = 1 << 16
+
 // OnHeader implements packfile.Observer interface.
 func (w *Writer) OnHeader(count uint32) error {
 	w.count = count
-	w.objects = make(objects, 0, count)
+	// count comes from the (untrusted) pack header: cap the preallocation
+	// and let append grow the slice as objects actually arrive.
+	w.objects = make(objects, 0, min(count, maxObjectsPrealloc))
 	return nil
 }
 
